@@ -54,10 +54,16 @@ const (
 	fkWrongKind               // pv/PM return a value of a kind the consumer rejects
 	fkErrTyped                // like fkErr, but the error value is a *plush.ErrUnknownIdentifier (a failing helper is not an unknown identifier, whatever its error's type)
 	fkErrWrapsTyped           // like fkErr, but the error wraps a *plush.ErrUnknownIdentifier
+	fkErrZeroValue            // like fkErr, but the error is the ZERO VALUE of a non-pointer error type (struct{}): non-nil as an error all the same
 )
 
+// zeroErr is a non-pointer error type whose only value is its zero value.
+type zeroErr struct{}
+
+func (zeroErr) Error() string { return "injected fault (zero value of a struct error type)" }
+
 func (k faultKind) String() string {
-	return [...]string{"none", "err", "block-pre", "block-post", "wrong-kind", "err-typed-unknown-identifier", "err-wraps-unknown-identifier"}[k]
+	return [...]string{"none", "err", "block-pre", "block-post", "wrong-kind", "err-typed-unknown-identifier", "err-wraps-unknown-identifier", "err-zero-value-of-struct-type"}[k]
 }
 
 // Invocation is one dynamic probe call.
@@ -101,6 +107,8 @@ func (rt *Runtime) enter(id int, name string, k probeKind) bool {
 			rt.Fault = &plush.ErrUnknownIdentifier{ID: fmt.Sprintf("injected-%d", id), Err: fmt.Errorf("injected fault at probe %d (invocation %d)", id, inv.Seq)}
 		case fkErrWrapsTyped:
 			rt.Fault = fmt.Errorf("injected fault at probe %d (invocation %d): %w", id, inv.Seq, &plush.ErrUnknownIdentifier{ID: "inner"})
+		case fkErrZeroValue:
+			rt.Fault = zeroErr{}
 		default:
 			rt.Fault = &InjectedFault{Seq: inv.Seq, ID: id}
 		}
@@ -136,6 +144,20 @@ func (o *VObj) PV(id int, v interface{}) (interface{}, error) {
 	}
 	return v, nil
 }
+
+// Dual is reached from templates both by value ("dv") and through a pointer
+// ("dp"). Its method set differs between Dual (Archive, Balance) and *Dual
+// (Archive, Balance, Title, Zed): the same method name has a different index.
+type Dual struct {
+	Label string
+	Bal   int
+}
+
+func (d Dual) Balance() string   { return fmt.Sprintf("balance:%d", d.Bal) }
+func (d *Dual) Title() string    { return "label:" + d.Label }
+func (d Dual) Archive() string   { return "archived:" + d.Label }
+func (d *Dual) Zed() string      { return "zed:" + d.Label }
+func (d *Dual) Aardvark() string { return "aardvark" }
 
 // stringer / HTMLer values for the output path
 type stg struct{ s string }
@@ -215,6 +237,8 @@ func (rt *Runtime) plainData() map[string]interface{} {
 		},
 		"om":   map[string]*Obj{"x": {Name: "ox", N: 12, rt: rt}},
 		"vobj": VObj{Name: "val", rt: rt},
+		"dv":   Dual{Label: "val" + fmt.Sprint(v), Bal: 12 + v},
+		"dp":   &Dual{Label: "ptr" + fmt.Sprint(v), Bal: 40 + v},
 		"stg":  stg{"s" + fmt.Sprint(v)},
 		"htm":  htm{"h&" + fmt.Sprint(v)},
 	}
